@@ -93,7 +93,9 @@ type scn struct {
 	grantSeen                       map[string]bool   // administrators already accounted for a grant
 	ruleProposalChain               map[string]string // proposal id of a master-rule update -> appchain id
 	bitAddr                         string            // address of the deployed WASM bit rule ("" if not deployed)
-	relaySet                        map[int]bool      // validator indexes in the trust root currently stored for the other BitXHub (observed)
+	kvAddr                          *types.Address    // address of the deployed WASM storage contract (nil if not deployed)
+	kvSeq                           int
+	relaySet                        map[int]bool // validator indexes in the trust root currently stored for the other BitXHub (observed)
 	relayN                          int
 	icCum                           uint64      // C09: interchain transactions counted over all blocks (incl. the prologue)
 	prevRefDump                     [][2]string // state store of the reference replica after the previous block (only kept when there are other replicas)
@@ -246,6 +248,9 @@ func (s *scn) setup() {
 			bitAddr = a.String()
 			s.bitAddr = bitAddr
 		}
+	}
+	if s.cfg.KV && !s.deployKV() {
+		return
 	}
 	// register appchains
 	var pids []string
@@ -412,6 +417,8 @@ func (s *scn) apply(st CStep) {
 		s.applyRuleOp(st)
 	case "eth":
 		s.applyEth(st)
+	case "kv":
+		s.applyKV(st)
 	case "adminreg":
 		s.applyAdminReg(st)
 	default:
